@@ -42,7 +42,7 @@ func mustTime(s string) time.Time {
 func zeroFirstTable(n int, seed int64) *vtable {
 	t := &vtable{name: fmt.Sprintf("zero-first-%d", n), vals: map[int][]any{}}
 	if n == 0 {
-		t.vals[jsonapi.AttrTypeString] = []any{"", "a\\u0026b\\u003c\\u003e", "\x00<&>\"\\é漢\U0001F600", "b "} // rank 1: a literal backslash before u0026: the text of a JSON escape
+		t.vals[jsonapi.AttrTypeString] = []any{"", "a\\u0026b\\u003c\\u003e", "\x00<&>\"\\é漢\U0001F600", "null"} // rank 1: a literal backslash before u0026: the text of a JSON escape; rank 3: a text that spells a JSON literal
 		t.vals[jsonapi.AttrTypeInt] = []any{int(0), int(-1), int(math.MaxInt64), int(math.MinInt64)}
 		t.vals[jsonapi.AttrTypeInt8] = []any{int8(0), int8(math.MinInt8), int8(math.MaxInt8), int8(1)}
 		t.vals[jsonapi.AttrTypeInt16] = []any{int16(0), int16(math.MinInt16), int16(math.MaxInt16), int16(-1)}
@@ -56,7 +56,7 @@ func zeroFirstTable(n int, seed int64) *vtable {
 		t.vals[jsonapi.AttrTypeBool] = []any{false, true}
 		t.vals[jsonapi.AttrTypeTime] = []any{time.Time{}, mustTime("2001-02-03T04:05:06.789012345Z"),
 			mustTime("9999-12-31T23:59:59.999999999+14:00"), mustTime("0001-01-01T00:00:00.000000001-07:30")}
-		t.vals[jsonapi.AttrTypeBytes] = []any{[]byte{}, []byte{1, 2}, []byte{2, 1}, []byte{255, 0}} // ranks 1..3: same length (in-place overwrite)
+		t.vals[jsonapi.AttrTypeBytes] = []any{[]byte{}, []byte{1, 2, 3}, []byte{3, 2, 1}, []byte{0x9e, 0xe9, 0x65}} // ranks 1..3: same length (in-place overwrite); rank 3 reads "null" in base64
 		return t
 	}
 	r := rand.New(rand.NewSource(seed*1000 + int64(n)))
@@ -95,6 +95,9 @@ func zeroFirstTable(n int, seed int64) *vtable {
 }
 
 func randString(r *rand.Rand) string {
+	if r.Intn(10) == 0 { // texts that spell something else in JSON
+		return []string{"null", "true", "false", "0", "-1", "[]", "{}", "\"\"", "1e3", "nul"}[r.Intn(10)]
+	}
 	alphabet := []rune("ab \x00<>&\"\\/é漢\U0001F600z%+#?")
 	n := 1 + r.Intn(6)
 	out := make([]rune, n)
